@@ -105,6 +105,9 @@ impl System for Sys {
                 v.push(Op::Write { k });
             }
         }
+        // a zero-length write hands over no byte: nothing may change (on a correct buffer the
+        // successor state equals this one and is deduplicated at once)
+        v.push(Op::Write { k: 0 });
         for cap in [8usize, 1, 2] {
             for flow in [8usize, 0, 1, 2] {
                 v.push(Op::Pick { cap, flow });
